@@ -169,6 +169,8 @@ def root_and_form(n, decls=None):
                 continue
             return None, None, None
         if k in ("MemberExpr", "CXXDependentScopeMemberExpr") and ch:
+            if strip(ch[0]).get("kind") == "CXXThisExpr":      # a data member of the enclosing class
+                return (n.get("name") or n.get("member")), (n.get("referencedMemberDecl") or "this"), form or ["whole"]
             n = ch[0]
             continue
         if k == "UnaryOperator" and n.get("opcode") in ("*", "&") and ch:
@@ -256,6 +258,10 @@ def region_info(par):
                 nm, did, _ = root_and_form(inner(init)[0])
                 if nm:
                     ivs.add(nm)
+            elif init.get("kind") == "DeclStmt":          # for (int n = 0; ...)
+                for d in inner(init):
+                    if d.get("kind") == "VarDecl" and d.get("name"):
+                        ivs.add(d.get("name"))
         if parts:
             visit(parts[-1], False)
     privs = [p for p in privs if p and p not in ivs]
@@ -327,6 +333,57 @@ def private_clause_names(text_dump):
     return out
 
 
+def directive_clauses(text_dump, fname):
+    """per parallel directive of the definitions of `fname` in clang's TEXT dump (in order): {clause kind: atoms}
+    where atoms = sorted identifiers / operators / integer literals of the clause's expression subtree"""
+    out = []
+    cur = None        # clause dict of the directive being read
+    clause = None     # (kind, indentation) of the clause being read
+    in_fn = False
+    for line in text_dump.splitlines():
+        if line.startswith("Dumping "):
+            nm = line[len("Dumping "):].rstrip(":").strip()
+            in_fn = nm.split("::")[-1] == fname
+            cur = clause = None
+            continue
+        if not in_fn:
+            continue
+        m = re.search(r"[A-Za-z<]", line)
+        ind = m.start() if m else 0
+        if re.search(r"\bOMPParallel(For)?Directive\b", line):
+            cur = {}
+            out.append(cur)
+            clause = None
+            continue
+        if cur is None:
+            continue
+        mc = re.search(r"\bOMP(\w+)Clause\b", line)
+        if mc:
+            clause = (mc.group(1), ind)
+            cur.setdefault(clause[0], [])
+            continue
+        if clause is not None:
+            if ind <= clause[1]:
+                clause = None
+                if re.search(r"\b(CapturedStmt|OMP\w+Directive)\b", line):
+                    cur = None if "CapturedStmt" in line else cur
+                continue
+            atoms = cur[clause[0]]
+            mo = re.search(r"\b(?:BinaryOperator|UnaryOperator)\b.*'([^']+)'\s*$", line)
+            if mo:
+                atoms.append(mo.group(1))
+            mv = re.search(r"\bDeclRefExpr\b.*\b(?:Var|ParmVar|Field)\b 0x[0-9a-f]+ '(\w+)'", line)
+            if mv:
+                atoms.append(mv.group(1))
+            mm = re.search(r"\bMemberExpr\b.*(?:->|\.)(\w+) 0x[0-9a-f]+", line)
+            if mm:
+                atoms.append(mm.group(1))
+            ml = re.search(r"\bIntegerLiteral\b.*'[^']*'\s+(\d+)\s*$", line)
+            if ml:
+                atoms.append(ml.group(1))
+    return [{k: sorted(v) for k, v in d.items()} for d in out]
+
+
 def clang_regions(repo, fname, header, extra_defs=()):
     tmp = tempfile.mkdtemp(prefix="t_omp_ast_")
     try:
@@ -342,24 +399,33 @@ def clang_regions(repo, fname, header, extra_defs=()):
             return None, p.stderr[-400:]
         regs = []
         clause_priv = None
+        dir_clauses = None
         for doc in docs_of(p.stdout):
-            # only definitions of the function itself (the filter also matches callers' names)
-            if doc.get("kind") not in ("FunctionTemplateDecl", "FunctionDecl") or doc.get("name") != fname:
+            # only definitions of the function itself (the filter also matches callers' names); member functions
+            # of classes / class templates are CXXMethodDecl
+            if doc.get("kind") not in ("FunctionTemplateDecl", "FunctionDecl", "CXXMethodDecl") or doc.get("name") != fname:
                 continue
             for par in find_all(doc, {"OMPParallelDirective", "OMPParallelForDirective"}, [],
                                 stop=("OMPParallelDirective", "OMPParallelForDirective")):
                 privs, stores, has_crit, ivs, accesses = region_info(par)
-                unnamed = [c for c in inner(par) if c.get("kind") is None and find_all(c, {"DeclRefExpr"}, [])]
+                # clang-14's JSON dump does not name the kind of a clause: clauses with an expression (private, if,
+                # reduction, num_threads ...) are read from the text dump
+                unnamed = [c for c in inner(par) if c.get("kind") is None and
+                           find_all(c, {"DeclRefExpr", "IntegerLiteral", "BinaryOperator"}, [])]
+                if_atoms = []
                 if unnamed:
                     if clause_priv is None:
                         cmd2 = [x for x in cmd]
                         cmd2[cmd2.index("-ast-dump=json")] = "-ast-dump"
                         p2 = subprocess.run(cmd2, capture_output=True, text=True, timeout=600)
                         clause_priv = private_clause_names(p2.stdout)
+                        dir_clauses = directive_clauses(p2.stdout, fname)
                     privs = [x for x in privs + clause_priv if x not in ivs]
                     stores = [w for w in stores if json.loads(w)[0] not in clause_priv]
                     accesses = [w for w in accesses if json.loads(w)[0] not in clause_priv]
-                regs.append((privs, stores, has_crit, ivs, accesses))
+                    if dir_clauses is not None and len(regs) < len(dir_clauses):
+                        if_atoms = dir_clauses[len(regs)].get("If", [])
+                regs.append((privs, stores, has_crit, ivs, accesses, if_atoms))
         return regs, None
     finally:
         shutil.rmtree(tmp, ignore_errors=True)
@@ -397,14 +463,22 @@ def compare(repo, tr=None):
             if len(cl) != len(regs):
                 out.append("%s: clang sees %d parallel region(s), the translator %d" % (tag, len(cl), len(regs)))
                 continue
-            for k, (r, (privs, stores, has_crit, ivs, accesses)) in enumerate(zip(regs, cl)):
+            for k, (r, (privs, stores, has_crit, ivs, accesses, if_atoms)) in enumerate(zip(regs, cl)):
+                if sorted(r.get("if_atoms") or []) != sorted(if_atoms):
+                    out.append("%s#%d: `if` clause of the parallel directive: clang %s, translator %s" % (
+                        tag, k + 1, sorted(if_atoms), sorted(r.get("if_atoms") or [])))
                 tp = sorted(p["name"] for p in r["private"])
                 if sorted(set(privs)) != tp:
                     out.append("%s#%d: thread-private variables: clang %s, translator %s" % (tag, k + 1, sorted(set(privs)), tp))
-                tw = sorted(json.dumps(w) for w in r["write_forms"])
+                # what the translator could not classify (form "opaque", pseudo-variables <directive> / <call> /
+                # <region>) is its "do not know" and is rejected by the checker: nothing to compare there
+                opaque_vars = {w[0] for w in r["write_forms"] if w[2] == ["opaque"] or w[0].startswith("<")}
+                tw = sorted(json.dumps(w) for w in r["write_forms"] if w[0] not in opaque_vars)
+                stores = [w for w in stores if json.loads(w)[0] not in opaque_vars]
+                accesses = [w for w in accesses if json.loads(w)[0] not in opaque_vars]
                 if tw != stores:
                     out.append("%s#%d: stores to shared variables: clang %s, translator %s" % (tag, k + 1, stores, tw))
-                ta = sorted(json.dumps(w) for w in r.get("access_forms", []))
+                ta = sorted(json.dumps(w) for w in r.get("access_forms", []) if w[0] not in opaque_vars)
                 # back_inserter(X) appears in the AST both as the append and as a plain mention of X
                 ca = [w for w in accesses if not (json.loads(w)[2] == ["whole"] and json.dumps(
                     [json.loads(w)[0], json.loads(w)[1], ["append"]]) in accesses)]
